@@ -402,13 +402,42 @@ func init() {
 			if len(roots) == 0 && r.Bool() {
 				roots = []cid.Cid{}
 			}
+			// limits set relative to the session's actual sizes: MaxAllowedSectionSize = the largest (or some)
+			// section length, one below, one above; MaxAllowedHeaderSize = the header length, -1, +1
+			limits := false
+			if r.Chance(22) {
+				b := pick(r, alpha)
+				if r.Bool() {
+					for _, x := range alpha {
+						if x.Cid.ByteLen()+len(x.Data) > b.Cid.ByteLen()+len(b.Data) {
+							b = x
+						}
+					}
+				}
+				l := b.Cid.ByteLen() + len(b.Data)
+				d := pick(r, []int{0, 0, -1, 1})
+				o.maxS = uint64(l + d)
+				c.Count(fmt.Sprintf("limits:section%+d", d))
+				limits = true
+			}
+			if r.Chance(12) {
+				frame := refPayload(roots, nil)
+				h := len(frame) - uvarintLen(uint64(len(frame)))
+				if uvarintLen(uint64(h))+h != len(frame) {
+					h = len(frame) - uvarintLen(uint64(h))
+				}
+				d := pick(r, []int{0, 0, -1, 1})
+				o.maxH = uint64(h + d)
+				c.Count(fmt.Sprintf("limits:header%+d", d))
+				limits = true
+			}
 			ops := genC04Ops(r, kind, alpha, 4+r.Intn(36))
 			if r.Chance(25) {
 				ops = genC04Lifecycle(r, kind, alpha)
 				c.Count("history:lifecycle-then-use")
 			}
 			c.Count("history:random")
-			if (kind == 0 || kind == 1) && r.Chance(35) {
+			if !limits && (kind == 0 || kind == 1) && r.Chance(35) {
 				// reopen the file once or twice in the middle of the history (same roots and options): the
 				// resumed store must go on as the map holding the blocks stored so far
 				for j := 0; j < 1+r.Intn(2); j++ {
@@ -456,6 +485,31 @@ func init() {
 							VL{VT("put"), k(d), VB(d.Data)}, VL{VT("has"), k(a)}, VL{VT("get"), k(a)}, VL{VT("finalizero")}, VL{VT("close")}, VL{VT("has"), k(a)}})
 					}
 					c.Count("history:scenario")
+				}
+			}
+			// the readers' limits at the boundary: MaxAllowedSectionSize = the section length of a, one below, one
+			// above; MaxAllowedHeaderSize = the header length, one below, one above (strict ">" at HEAD)
+			{
+				rs := []cid.Cid{a.Cid}
+				frame := refPayload(rs, nil)
+				hl := len(frame) - uvarintLen(uint64(len(frame)-1))
+				sl := a.Cid.ByteLen() + len(a.Data)
+				for _, kind := range []uint64{0, 5, 1} {
+					for _, dl := range []int{0, -1, 1} {
+						for _, v1 := range []bool{false, true} {
+							o := defaultWOpts
+							o.v1 = v1
+							o.maxS = uint64(sl + dl)
+							o.maxH = uint64(hl + dl)
+							ops := VL{VL{VT("put"), k(a), VB(a.Data)}, VL{VT("has"), k(a)}, VL{VT("get"), k(a)}, VL{VT("roots")},
+								VL{VT("put"), k(d), VB(d.Data)}, VL{VT("get"), k(d)}}
+							if isBS(kind) {
+								ops = append(ops, VL{VT("getsize"), k(a)}, VL{VT("keys")})
+							}
+							emitC04(c, kind, o, rs, ops)
+							c.Count(fmt.Sprintf("limits:scenario%+d", dl))
+						}
+					}
 				}
 			}
 			// a session, Discard or Finalize, reopen, and on (Example C04_example_across_reopen has this shape)
